@@ -55,7 +55,7 @@ var = spec.get('variant')
 if var == 'split' and ss.GENROU.n > 0:
     # two machines share the first static generator 0.3 / 0.7
     d = ss.GENROU.as_dict(vin=True) if False else None
-    row = {k: p.v[0] for k, p in ss.GENROU.params.items() if k not in ('idx', 'name')}
+    row = {k: p.v[0] for k, p in ss.GENROU.params.items() if k not in ('idx', 'name') and len(p.v) > 0}
     row['gammap'] = 0.3; row['gammaq'] = 0.3
     ss.GENROU.gammap.v[0] = 0.7; ss.GENROU.gammaq.v[0] = 0.7
     row['Sn'] = row['Sn']
@@ -93,7 +93,10 @@ if pf:
         with contextlib.redirect_stdout(sink):
             ok = ss.TDS.run()
         out['run_ok'] = bool(ok)
-        out['drift'] = float(max(np.max(np.abs(ss.dae.x - x0)), np.max(np.abs(ss.dae.y - y0))))
+        dx, dy = np.abs(ss.dae.x - x0), np.abs(ss.dae.y - y0)
+        out['drift'] = float(max(np.max(dx), np.max(dy)))
+        k = int(np.argmax(dx)) if np.max(dx) >= np.max(dy) else None
+        out['drift_var'] = ss.dae.x_name[k] if k is not None else ss.dae.y_name[int(np.argmax(dy))]
 print(json.dumps(out))
 '''
 
@@ -151,15 +154,21 @@ def run(ctx):
                 ctx.oracle_fail('inconsistent-data-not-reported', 'limits inconsistent with the operating point, yet initialisation reports %r' % r['test_ok'], tag)
             continue
         consistent = r['islands'] <= 1 and r['islanded'] == 0
-        if consistent and r['test_ok'] is not True:
-            ctx.oracle_fail('consistent-case-fails-init:%s' % (sp.get('variant') or os.path.basename(sp['file'])),
-                            '%s: a consistent stock case / attachment does not initialise (max residual %.3g)' % (tag, r['maxfg']), tag)
+        if r['test_ok'] is not True:
+            if sp.get('variant') and consistent:
+                # attachments are built from a case that initialises: they are consistent by construction
+                ctx.oracle_fail('consistent-attachment-fails-init:%s' % sp['variant'],
+                                '%s: an attachment built from consistent data does not initialise (max residual %.3g)' % (tag, r['maxfg']), tag)
+            else:
+                ctx.count('stock_case_reports_failed_init')    # whether the shipped data are consistent is not ours to say
+            continue
         if 'drift' in r:
             ctx.count('undisturbed_runs')
             ctx.cov['max_undisturbed_drift'] = max(ctx.cov.get('max_undisturbed_drift', 0.0), r['drift'])
             if not r['run_ok'] or r['drift'] > 1e-5:
-                ctx.oracle_fail('undisturbed-run-drifts', '%s: an undisturbed run moves away from the initial point by %.3g (completed: %s)'
-                                % (tag, r['drift'], r['run_ok']), tag)
+                mdl = (r.get('drift_var') or '? ?').split()[1] if len((r.get('drift_var') or '').split()) > 1 else '?'
+                ctx.oracle_fail('undisturbed-run-drifts:%s' % mdl, '%s: an undisturbed run moves away from the initial point: %s changes by %.3g in 1 s (completed: %s)'
+                                % (tag, r.get('drift_var'), r['drift'], r['run_ok']), tag)
 
 
 def search(ctx):
